@@ -5,11 +5,55 @@
    within and across blocks, every index level against its children, the object
    index against the ref blocks, update-index range).  On every run the
    extracted spec_decode judges every file the implementation emits
-   (translation validation).  Proved here: properties of the judge itself. *)
+   (translation validation).  Proved here: the judge accepts EVERY table the
+   model writer emits and decodes exactly the records written (so a rejection
+   at run time means the implementation left the model or the format), and
+   properties of the judge itself. *)
 From Coq Require Import List NArith Arith Bool.
-From RT Require Import Model.Bytes Model.Records Model.RecCodec Model.SpecDecoder Model.Crc32 Proofs.SpecProofs.
+From RT Require Import Model.Result Model.Bytes Model.Records Model.RecCodec Model.Block Model.Writer Model.SpecDecoder Model.Crc32
+  Proofs.BlockProofs Proofs.TableProofs Proofs.SpecProofs Proofs.SpecWriterProofs.
 Import ListNotations.
 Local Open Scope N_scope.
+
+(* every table the writer emits -- any accepted configuration (block size,
+   padding, restart interval, hash, object index on or off), any accepted
+   records, any number of blocks and index levels -- is well-formed per the
+   format and means exactly the records written.  The only fact used about zlib
+   is the round trip.  Size bound: the format gives the object-section offset 59
+   bits (the writer stores offset*32+idlen in 64), so tables are < 2^59 bytes
+   (C14_wellformed_noobj keeps 2^64 when no object index is written). *)
+Theorem C14_wellformed : forall deflate inflate,
+  zlib_ok deflate inflate ->
+  forall cfg min max refs logs data logs',
+  cfg_ok cfg -> max < two64 -> min <= max -> refs_ok cfg min max refs -> logs_ok cfg logs ->
+  N.of_nat (length data) < 2 ^ 59 ->
+  write_table deflate cfg min max refs logs = Ok (false, data) ->
+  read_logs cfg logs = Some logs' ->
+  exists t, spec_decode (sinfl_of inflate) data = inr t /\
+    sp_refs t = refs /\ sp_logs t = logs' /\ sp_min t = min /\ sp_max t = max /\ sp_sha256 t = c_sha256 cfg.
+Proof. exact table_wellformed. Qed.
+Print Assumptions C14_wellformed.
+
+Theorem C14_wellformed_noobj : forall deflate inflate,
+  zlib_ok deflate inflate ->
+  forall cfg min max refs logs data logs',
+  c_skip_index_objects cfg = true ->
+  cfg_ok cfg -> max < two64 -> min <= max -> refs_ok cfg min max refs -> logs_ok cfg logs ->
+  N.of_nat (length data) < two64 ->
+  write_table deflate cfg min max refs logs = Ok (false, data) ->
+  read_logs cfg logs = Some logs' ->
+  exists t, spec_decode (sinfl_of inflate) data = inr t /\
+    sp_refs t = refs /\ sp_logs t = logs' /\ sp_min t = min /\ sp_max t = max /\ sp_sha256 t = c_sha256 cfg.
+Proof. exact table_wellformed_noobj. Qed.
+Print Assumptions C14_wellformed_noobj.
+
+(* non-vacuity: with the concrete stored-stream codec (which satisfies zlib_ok) a 38-block
+   aligned table with multi-level ref index, object index and log index is written,
+   judged well-formed and decoded to exactly its records *)
+Example C14_wellformed_ex :
+  zlib_ok sdeflate sinflate /\
+  s_check (t_cfg false 128 false) 30 30 = Some (inr (38%nat, true, true, true)).
+Proof. split; [exact sdeflate_ok | vm_compute; reflexivity]. Qed.
 
 (* the judge is strict about the envelope: anything it accepts starts with the
    magic, has a supported version and repeats its header in the footer *)
